@@ -19,6 +19,10 @@ pub fn units(tier: &str, _seed: u64) -> Vec<String> {
     for (loc, red1) in [("meta", "none"), ("none", "none"), ("file+meta", "none"), ("cli+meta", "none"), ("cli", "cli"), ("cli", "meta"), ("cli", "both"), ("meta", "both"), ("file", "cli"), ("file", "meta"), ("file+meta", "both")] {
         v.push(unit(&[("ka", "----"), ("loc", loc), ("red1", red1)]));
     }
+    // the braces spelling of a factor in the metadata; legacy metadata names with an option that overrides them
+    v.push(unit(&[("ka", "----"), ("loc", "cli"), ("red1", "meta"), ("sp", "braces")]));
+    v.push(unit(&[("ka", "ssss"), ("loc", "cli"), ("red1", "none"), ("legacy", "1")]));
+    v.push(unit(&[("ka", "-s-s"), ("loc", "cli"), ("red1", "none"), ("legacy", "1")]));
     if tier == "thorough" {
         for c in ["sxss", "ssxs", "sssx", "xsss", "s-s-", "-s-s"] {
             for loc in ["meta", "file+meta"] {
@@ -64,12 +68,14 @@ pub fn scenario(u: &Unit) -> String {
     // ---- components file
     let mut comps = String::new();
     match kmeta {
+        's' if u.get("legacy") == "1" => comps.push_str(&format!("#CTE_kexp: {}\n", ptok("kmeta"))),
         's' => comps.push_str(&format!("#META CTE_KEXP: {}\n", ptok("kmeta"))),
         'x' => comps.push_str("#META CTE_KEXP: mucho\n"),
         'n' => comps.push_str("#META CTE_KEXP: NaN\n"),
         _ => {}
     }
     match ameta {
+        's' if u.get("legacy") == "1" => comps.push_str(&format!("#CTE_Area_ref: {}\n", ptok("ameta"))),
         's' => comps.push_str(&format!("#META CTE_AREAREF: {}\n", ptok("ameta"))),
         'x' => comps.push_str("#META CTE_AREAREF: grande\n"),
         'n' => comps.push_str("#META CTE_AREAREF: nan\n"),
@@ -79,11 +85,20 @@ pub fn scenario(u: &Unit) -> String {
         comps.push_str("#META CTE_LOCALIZACION: CANARIAS\n");
     }
     if red1 == "meta" || red1 == "both" {
-        comps.push_str(&format!("#META CTE_RED1: {}, {}, {}\n", ftok("r1m_ren"), ftok("r1m_nren"), ftok("r1m_co2")));
+        if u.get("sp") == "braces" {
+            comps.push_str(&format!("#META CTE_RED1: {{ ren: {}, nren: {}, co2: {} }}\n", ftok("r1m_ren"), ftok("r1m_nren"), ftok("r1m_co2")));
+        } else {
+            comps.push_str(&format!("#META CTE_RED1: {}, {}, {}\n", ftok("r1m_ren"), ftok("r1m_nren"), ftok("r1m_co2")));
+        }
     }
     comps.push_str("CONSUMO, CAL, ELECTRICIDAD, 100\nPRODUCCION, EL_INSITU, 150\nCONSUMO, ACS, RED1, 50\n");
     std::fs::write(p("c.csv"), &comps).unwrap();
     std::fs::write(p("f.csv"), "#META CTE_FUENTE: archivo\nELECTRICIDAD, RED, SUMINISTRO, A, 0.5, 2.0, 0.4\nRED1, RED, SUMINISTRO, A, 0.25, 1.0, 0.2\n").unwrap();
+    // the output files already exist and are longer than anything the program writes
+    let old_content = "contenido anterior del archivo, que debe desaparecer\n".repeat(2000);
+    for fname in ["out.csv", "out.json", "out.xml", "out.txt"] {
+        std::fs::write(p(fname), &old_content).unwrap();
+    }
     // ---- command line
     let mut args: Vec<String> = vec!["-c".into(), p("c.csv"), "--oc".into(), p("out.csv"), "--json".into(), p("out.json"), "--xml".into(), p("out.xml"), "--txt".into(), p("out.txt")];
     if loc.starts_with("cli") {
@@ -158,9 +173,11 @@ pub fn scenario(u: &Unit) -> String {
         }
     }
     <F as Scalar>::note(format!("cteepbd {}", args.join(" ")));
-    let oc = std::fs::read_to_string(p("out.csv")).ok();
-    let json = std::fs::read_to_string(p("out.json")).ok();
-    let (xml, txt) = (std::fs::read_to_string(p("out.xml")).ok(), std::fs::read_to_string(p("out.txt")).ok());
+    let oc = std::fs::read_to_string(p("out.csv")).ok().filter(|c| *c != old_content);
+    // a file that still has its old content was not written
+    let fresh = |f: &str| std::fs::read_to_string(p(f)).ok().filter(|c| *c != old_content);
+    let json = fresh("out.json");
+    let (xml, txt) = (fresh("out.xml"), fresh("out.txt"));
     let _ = std::fs::remove_dir_all(&dir);
     let w = Dom::Range(-10.0, 1.0e7);
     let val = |given: char, name: &str| -> Option<F> { if given == 's' { Some(input(name, w)) } else { None } };
